@@ -66,7 +66,7 @@ def replay(prop, path, want=None):
         from . import _e1props
 
         return _e1props.replay(prop, path)
-    return generic_replay(prop, path, confirm_job, extra=(list(want or [prop]), 60000))
+    return generic_replay(prop, path, confirm_job, extra=(list(want or [prop]), 60000), item_job=job)
 
 
 del EI
